@@ -6,37 +6,48 @@
 (* One TLC run validates a batch of traces (`tid` picks the trace, `l` the *)
 (* position in it).  Every step is total: a mismatch sets `err` to the     *)
 (* failing clause; Finish prints <<"V", tid, err, l>> once per trace and   *)
-(* <<"R", tid, k>> (k = index of the offending port entry / variable).     *)
+(* <<"T", tid, k, ncmp, nflat>> (k = index of the offending port entry /   *)
+(* variable; ncmp / nflat = leaf comparisons made / made through a         *)
+(* multi-leaf FlatMap layout) and, in mode "drv", <<"R", tid, first        *)
+(* multiply driven variable, #multiply driven, #undriven>>.                *)
 (*                                                                         *)
 (* Trace := [d: design (see SVSem), mode: "run" | "drv", ev: Seq(Event)]   *)
 (* Event := [in:   Seq(Port)   values driven before settling,              *)
 (*           outc: Seq(Port)   expected after sim_eval_combinational,      *)
 (*           tick: BOOLEAN     a rising clock edge follows,                *)
 (*           outt: Seq(Port)]  expected after sim_tick                     *)
-(* Port  := [n: name, ix: Seq(Nat) unpacked indices, ty: type descriptor   *)
-(*           of the PyMTL port (SVSem!Leaves), v: packed bits LSB first]   *)
-(* For the SystemVerilog back end ty is always [k |-> "bits", w]; for the  *)
-(* yosys back end it is the PyMTL data type of the port, so that the       *)
-(* flattened ports are driven / compared THROUGH the layout of FlatMap.    *)
+(* Port  := [n: name, ix: Seq(Nat) unpacked indices, ty: shape of the      *)
+(*           PyMTL port (BitStruct!Leaf / Struct / List), v: packed bits   *)
+(*           LSB first]                                                    *)
+(* For the SystemVerilog back end ty is always Leaf(w): a struct port is   *)
+(* one packed variable, and the layout of its members is SVSem's reading   *)
+(* of the emitted typedef.  For the yosys back end ty is the PyMTL data    *)
+(* type of the port, and the flattened ports p__field__i are driven /      *)
+(* compared THROUGH BitStruct!Layout (clause FlatMap of C12: first field   *)
+(* most significant, list element 0 least significant).                    *)
 (* mode "drv": only SVSem!Drivers is evaluated (clause OneDriver).         *)
 (***************************************************************************)
 EXTENDS Integers, Sequences, FiniteSets, TLC, SequencesExt, Json, IOUtils
 
-S == INSTANCE SVSem
+S  == INSTANCE SVSem
+BS == INSTANCE BitStruct WITH Shape <- [k |-> "leaf", w |-> 1], Names <- {}, objs <- <<>>
 
 Input  == JsonDeserialize(IOEnv.VERIF_INPUT)
 Traces == Input.traces
 
-VARIABLES tid, l, err, fin, st, k
-tvars == <<tid, l, err, fin, st, k>>
+VARIABLES tid, l, err, fin, st, k, ncmp, nflat
+tvars == <<tid, l, err, fin, st, k, ncmp, nflat>>
 
 T == Traces[tid]
 D == T.d
 
 FlatIdx(ud, ix) == FoldLeft(LAMBDA a, j : a * ud[j] + ix[j], 0, S!Idx(Len(ud)))
 
-\* the (variable, element, lo, w) locations a port entry denotes
-Locs(p) == S!Leaves(p.ty, p.n, 0)
+\* FlatMap: the flattened variables a port entry denotes, one per leaf of BitStruct!Layout:
+\* [n |-> mangled name p__path..., lo |-> first bit of the leaf in the packed value, w |-> width]
+Mangle(n, path) == FoldLeft(LAMBDA a, x : a \o "__" \o x, n, path)
+Locs(p) == LET lay == BS!Layout(p.ty)
+           IN  [i \in 1..Len(lay) |-> [n |-> Mangle(p.n, lay[i].path), lo |-> lay[i].lo, w |-> lay[i].hi - lay[i].lo]]
 
 LocOk(d, p, lf) ==
     /\ lf.n \in DOMAIN d.vars
@@ -50,7 +61,7 @@ Drive(d, s, ins) ==
             IF acc.err # "ok" THEN acc
             ELSE LET p  == ins[i]
                      ls == Locs(p)
-                 IN  IF Len(p.v) # S!TdW(p.ty) THEN [acc EXCEPT !.err = "trace-value-width", !.k = i]
+                 IN  IF Len(p.v) # BS!NBits(p.ty) THEN [acc EXCEPT !.err = "trace-value-width", !.k = i]
                      ELSE FoldLeft(LAMBDA a, lf :
                             IF a.err # "ok" THEN a
                             ELSE IF ~LocOk(d, p, lf) THEN [a EXCEPT !.err = "port-map-input", !.k = i]
@@ -66,7 +77,7 @@ Compare(d, s, outs, clause) ==
             IF acc.err # "ok" THEN acc
             ELSE LET p  == outs[i]
                      ls == Locs(p)
-                 IN  IF Len(p.v) # S!TdW(p.ty) THEN [err |-> "trace-value-width", k |-> i]
+                 IN  IF Len(p.v) # BS!NBits(p.ty) THEN [err |-> "trace-value-width", k |-> i]
                      ELSE FoldLeft(LAMBDA a, lf :
                             IF a.err # "ok" THEN a
                             ELSE IF ~LocOk(d, p, lf) THEN [err |-> "port-map-output", k |-> i]
@@ -76,11 +87,16 @@ Compare(d, s, outs, clause) ==
                             acc, ls)
     IN  FoldLeft(one, [err |-> "ok", k |-> 0], S!Idx(Len(outs)))
 
+\* coverage counters: leaf comparisons made so far, and how many of them went through a
+\* multi-leaf layout (clause FlatMap)
+NLeaves(ps, flatonly) ==
+    FoldLeft(LAMBDA a, p : IF flatonly /\ p.ty.k = "leaf" THEN a ELSE a + Len(BS!Layout(p.ty)), 0, ps)
+
 Init == /\ tid \in 1 .. Len(Traces)
         /\ l = 0 /\ err = "ok" /\ fin = FALSE /\ k = 0
-        /\ st = <<>>
+        /\ st = <<>> /\ ncmp = 0 /\ nflat = 0
 
-Fail(c, kk) == err' = c /\ k' = kk /\ UNCHANGED <<tid, l, fin, st>>
+Fail(c, kk) == err' = c /\ k' = kk /\ UNCHANGED <<tid, l, fin, st, ncmp, nflat>>
 
 \* l = 0: build the initial state (or, in mode "drv", evaluate OneDriver)
 Start ==
@@ -91,11 +107,11 @@ Start ==
                /\ k' = r.multi
                /\ PrintT(<<"R", tid, r.multi, r.nmulti, r.undriven>>)
                /\ l' = Len(T.ev) + 1
-               /\ UNCHANGED <<tid, fin, st>>
+               /\ UNCHANGED <<tid, fin, st, ncmp, nflat>>
        ELSE
            LET c == S!InitState(D)
            IN  IF c.err # "ok" THEN Fail(c.err, 0)
-               ELSE /\ st' = c.st /\ l' = 1 /\ UNCHANGED <<tid, err, fin, k>>
+               ELSE /\ st' = c.st /\ l' = 1 /\ UNCHANGED <<tid, err, fin, k, ncmp, nflat>>
 
 Step ==
     /\ l >= 1
@@ -109,17 +125,21 @@ Step ==
        IN  IF s1.err # "ok" THEN Fail(s1.err, s1.k)
            ELSE IF s2.err # "ok" THEN Fail("comb:" \o s2.err, 0)
            ELSE IF c1.err # "ok" THEN Fail(c1.err, c1.k)
-           ELSE IF ~ev.tick THEN st' = s2.st /\ l' = l + 1 /\ UNCHANGED <<tid, err, fin, k>>
+           ELSE IF ~ev.tick THEN /\ st' = s2.st /\ l' = l + 1 /\ UNCHANGED <<tid, err, fin, k>>
+                                 /\ ncmp' = ncmp + NLeaves(ev.outc, FALSE)
+                                 /\ nflat' = nflat + NLeaves(ev.outc, TRUE)
            ELSE IF s3.err # "ok" THEN Fail("edge:" \o s3.err, 0)
            ELSE IF s4.err # "ok" THEN Fail("tick:" \o s4.err, 0)
            ELSE IF c2.err # "ok" THEN Fail(c2.err, c2.k)
-           ELSE st' = s4.st /\ l' = l + 1 /\ UNCHANGED <<tid, err, fin, k>>
+           ELSE /\ st' = s4.st /\ l' = l + 1 /\ UNCHANGED <<tid, err, fin, k>>
+                /\ ncmp' = ncmp + NLeaves(ev.outc, FALSE) + NLeaves(ev.outt, FALSE)
+                /\ nflat' = nflat + NLeaves(ev.outc, TRUE) + NLeaves(ev.outt, TRUE)
 
 \* (IF, not \/: TLC would split a disjunction into two evaluations and print twice)
 Finish == /\ ~fin /\ (IF err # "ok" THEN TRUE ELSE l > Len(T.ev))
           /\ PrintT(<<"V", tid, err, l>>)
-          /\ PrintT(<<"T", tid, k>>)
-          /\ fin' = TRUE /\ UNCHANGED <<tid, l, err, st, k>>
+          /\ PrintT(<<"T", tid, k, ncmp, nflat>>)
+          /\ fin' = TRUE /\ UNCHANGED <<tid, l, err, st, k, ncmp, nflat>>
 
 Next == \/ /\ ~fin /\ err = "ok" /\ l <= Len(T.ev)
            /\ (Start \/ Step)
